@@ -1,3 +1,259 @@
-import ArrModel.C13
+import ArrProofs.Lemmas.C13Axis
+/-!
+# C13 — delete, insert, append and repeat change exactly the addressed positions
+
+Property theorems only (helper lemmas in `ArrProofs/Lemmas/C13*.lean`).
+Model under test: `ArrModel/C13.lean` (`deleteFlat`, `delete`, `insertFlat`, `appendFlat`, `repeatFlat`, `repeatAxis`,
+`trimZeros`; `manipulate.rs:238-341, 382-393`, `tiling.rs`), with `applyAlongAxis` (`ArrModel/AlongAxis.lean`),
+`broadcastTo` / `broadcastH2` (`ArrModel/Broadcast.lean`), `split` / `moveaxis`.
+
+Specification vocabulary
+* `keptIdx n idxs` — the positions `0 … n-1` that are NOT requested, ascending (`(List.range n).filter (· ∉ idxs)`).
+* `laneOf`, `a.get? c`, `inRange` — as in C08 / C02.
+* `bc1 L n` — a vector stretched to length `n` (itself, or its single entry `n` times).
+* `sortByIdx` (model) — the stable sort of the (index, value) pairs the code performs; characterised by `sortByIdx_spec`.
+-/
 namespace ArrModel.C13
+open ArrModel Arr
+variable {α : Type}
+
+/-! ## 1. flat delete -/
+
+/-- **flat delete removes exactly the requested positions**, whatever the order or repetition of the request: when
+every requested index is inside the array the call succeeds and the result is the flat array of the elements whose
+POSITION is not requested, in their original order; when some index is outside, the answer is `Err(OutOfBounds)`.
+These two cases are exhaustive, so the call never panics. -/
+theorem deleteFlat_spec (a : Arr α) (idxs : List Nat) :
+    ((∀ i ∈ idxs, i < a.elems.length) →
+      a.deleteFlat idxs = .ok (Arr.flat ((a.elems.zipIdx.filter (fun p => decide (p.2 ∉ idxs))).map (·.1)))) ∧
+    ((∃ i ∈ idxs, a.elems.length ≤ i) → a.deleteFlat idxs = .err .OutOfBounds) :=
+  ⟨Arr.deleteFlat_ok a idxs, Arr.deleteFlat_err a idxs⟩
+
+/-- the same result position by position: element `j` of the result is the element at the `j`-th non-requested
+position, and the length drops by the number of DISTINCT requested positions -/
+theorem deleteFlat_at (a : Arr α) (idxs : List Nat) (h : ∀ i ∈ idxs, i < a.elems.length) :
+    ∃ r, a.deleteFlat idxs = .ok r ∧ r.shape = [r.elems.length] ∧
+      r.elems.length + ((List.range a.elems.length).filter (fun i => decide (i ∈ idxs))).length = a.elems.length ∧
+      r.elems.length = (keptIdx a.elems.length idxs).length ∧
+      ∀ j : Nat, r.elems[j]? = (keptIdx a.elems.length idxs)[j]?.bind (fun i => a.elems[i]?) :=
+  ⟨_, Arr.deleteFlat_ok a idxs h, rfl, keepPositions_length _ _, keepPositions_length' _ _,
+    fun j => keepPositions_getElem? _ _ j⟩
+
+/-- **order and repetition of the request are irrelevant**: two requests naming the same set of positions give the
+same answer (result or error) -/
+theorem deleteFlat_request_set (a : Arr α) (idxs idxs' : List Nat) (h : ∀ i, i ∈ idxs ↔ i ∈ idxs') :
+    a.deleteFlat idxs = a.deleteFlat idxs' := by
+  by_cases hb : ∀ i ∈ idxs, i < a.elems.length
+  · rw [Arr.deleteFlat_ok a idxs hb, Arr.deleteFlat_ok a idxs' (fun i hi => hb i ((h i).2 hi))]
+    have : (fun (p : α × Nat) => decide (p.2 ∉ idxs)) = (fun p => decide (p.2 ∉ idxs')) := by funext p; simp [h]
+    unfold keepPositions; rw [this]
+  · have : ∃ i ∈ idxs, a.elems.length ≤ i := by
+      apply Classical.byContradiction; intro hn; apply hb; intro i hi
+      apply Classical.byContradiction; intro hlt; exact hn ⟨i, hi, by omega⟩
+    rw [Arr.deleteFlat_err a idxs this]
+    obtain ⟨i, hi, hle⟩ := this
+    rw [Arr.deleteFlat_err a idxs' ⟨i, (h i).1 hi, hle⟩]
+
+/-- with no axis `delete` is the flat delete -/
+theorem delete_none (a : Arr α) (zero : α) (idxs : List Nat) : a.delete zero idxs none = a.deleteFlat idxs := rfl
+
+/-! ## 2. delete along an axis -/
+
+/-- **delete along an axis removes exactly those positions from every lane**: for a well-formed array without a
+zero-length axis, an axis inside the rank and requested indices inside the axis (any order, any repetition), the call
+succeeds; the axis shrinks to the number of non-requested positions, every other axis is kept, and the element at
+coordinate `c` of the result is the element of `a` at `c` with the axis coordinate replaced by the `c[axis]`-th
+non-requested position (so every untouched element sits at its shifted coordinate, in order). -/
+theorem delete_axis_spec (a : Arr α) (zero : α) (idxs : List Nat) (axis : Nat)
+    (hwf : a.WF) (hax : axis < a.ndim) (hnz : 0 ∉ a.shape) (hb : ∀ i ∈ idxs, i < a.shape.getD axis 0) :
+    ∃ r, a.delete zero idxs (some axis) = .ok r ∧
+      r.shape = a.shape.set axis (keptIdx (a.shape.getD axis 0) idxs).length ∧ r.WF ∧
+      ∀ c, inRange r.shape c = true →
+        ∃ k, (keptIdx (a.shape.getD axis 0) idxs)[c.getD axis 0]? = some k ∧ r.get? c = a.get? (c.set axis k) :=
+  Arr.delete_axis_ok a zero idxs axis hwf hax hnz hb
+
+/-- the kept positions: ascending, exactly the non-requested ones, and their number is the axis length minus the
+number of distinct requested positions -/
+theorem keptIdx_spec (n : Nat) (idxs : List Nat) :
+    (keptIdx n idxs).Pairwise (· < ·) ∧ (∀ k, k ∈ keptIdx n idxs ↔ k < n ∧ k ∉ idxs) ∧
+    (keptIdx n idxs).length + ((List.range n).filter (fun i => decide (i ∈ idxs))).length = n := by
+  refine ⟨?_, fun k => by simp [keptIdx], keptIdx_length n idxs⟩
+  unfold keptIdx
+  exact (List.pairwise_lt_range (n := n)).filter _
+
+/-- **delete along an axis equals the flat delete on every lane** (the form the code has) -/
+theorem delete_axis_lanes (a : Arr α) (zero : α) (idxs : List Nat) (axis : Nat)
+    (hwf : a.WF) (hax : axis < a.ndim) (hnz : 0 ∉ a.shape) (hb : ∀ i ∈ idxs, i < a.shape.getD axis 0) :
+    ∃ r, a.delete zero idxs (some axis) = .ok r ∧
+      ∀ c, inRange r.shape c = true →
+        ∃ y, (Arr.flat (laneOf a axis c)).deleteFlat idxs = .ok y ∧ r.get? c = y.elems[c.getD axis 0]? := by
+  obtain ⟨r, h1, _, _, h4⟩ := applyAlongAxis_spec a zero zero axis (keptIdx (a.shape.getD axis 0) idxs).length
+    (fun lane => lane.deleteFlat idxs) hwf hax hnz
+    (fun lane hl => ⟨_, Arr.deleteFlat_ok (Arr.flat lane) idxs
+        (by intro i hi; show i < lane.length; rw [hl]; exact hb i hi), by
+      show (keepPositions lane idxs).length = _
+      rw [keepPositions_length', hl]⟩)
+  exact ⟨r, h1, h4⟩
+
+/-- **rejections along an axis**: an index beyond the axis length gives `Err(OutOfBounds)`, an axis outside the rank
+`Err(AxisOutOfBounds)` — no panic, no data -/
+theorem delete_axis_rejects (a : Arr α) (zero : α) (idxs : List Nat) (axis : Nat) :
+    (a.WF → axis < a.ndim → 0 ∉ a.shape → (∃ i ∈ idxs, a.shape.getD axis 0 ≤ i) →
+      a.delete zero idxs (some axis) = .err .OutOfBounds) ∧
+    (a.ndim ≤ axis → a.delete zero idxs (some axis) = .err .AxisOutOfBounds) :=
+  ⟨fun hwf hax hnz hb => Arr.delete_axis_oob a zero idxs axis hwf hax hnz hb,
+   fun h => applyAlongAxis_axis_err a zero zero axis _ h⟩
+
+/-! ## 3. flat insert -/
+
+/-- **the pair order the code inserts in**: a permutation of the request, ascending in the index, and pairs carrying
+the same index keep their request order (stable) -/
+theorem sortByIdx_spec (l : List (Nat × α)) :
+    (sortByIdx l).Perm l ∧ (sortByIdx l).Pairwise (fun p q => p.1 ≤ q.1) ∧
+    ∀ i, (sortByIdx l).filter (fun p => p.1 == i) = l.filter (fun p => p.1 == i) :=
+  ⟨sortByIdx_perm l, sortByIdx_sorted l, sortByIdx_stable l⟩
+
+/-- **flat insert, pairwise case** (`k ≥ 1` indices, `k` values in a 1-D array): positions refer to the OLD flattened
+array.  With every index `≤ len` the call succeeds with a flat array of `len + k` elements; with
+`S = sortByIdx (idxs.zip values)` (see `sortByIdx_spec`) the `j`-th pair of `S` lands at position `S[j].index + j` and
+holds `S[j].value`; and removing exactly the `k` landing positions gives back the old elements in their old order. -/
+theorem insertFlat_spec (a : Arr α) (idxs : List Nat) (values : Arr α)
+    (hv : values.ndim = 1) (ha : 1 ≤ a.ndim) (hk : 0 < idxs.length) (hlen : values.elems.length = idxs.length)
+    (hb : ∀ i ∈ idxs, i ≤ a.elems.length) :
+    ∃ r, a.insertFlat idxs values = .ok r ∧ r.shape = [a.elems.length + idxs.length] ∧
+      r.elems.length = a.elems.length + idxs.length ∧
+      (∀ j (hj : j < (sortByIdx (idxs.zip values.elems)).length),
+        r.elems[(sortByIdx (idxs.zip values.elems))[j].1 + j]? = some (sortByIdx (idxs.zip values.elems))[j].2) ∧
+      (r.elems.zipIdx.filter (fun p => decide (p.2 ∉
+          (sortByIdx (idxs.zip values.elems)).zipIdx.map (fun q => q.1.1 + q.2)))).map (·.1) = a.elems := by
+  have hok := Arr.insertFlat_ok a idxs values hv ha hk (by omega) (.inl hlen.symm) hb
+  rw [hlen, Nat.max_self, bc1_same, ← hlen, bc1_same] at hok
+  have hS : ∀ p ∈ sortByIdx (idxs.zip values.elems), p.1 ≤ a.elems.length := fun p hp =>
+    hb _ (List.of_mem_zip ((sortByIdx_perm _).mem_iff.1 hp)).1
+  obtain ⟨h1, h2, h3, _⟩ := insertAllAt_spec a.elems _ (sortByIdx_sorted (idxs.zip values.elems)) hS
+  have hSl : (sortByIdx (idxs.zip values.elems)).length = idxs.length := by
+    rw [sortByIdx_length, List.length_zip, hlen, Nat.min_self]
+  refine ⟨_, hok, ?_, ?_, h2, h3⟩
+  · show [(insertAllAt _ _).length] = _; rw [h1, hSl]
+  · show (insertAllAt _ _).length = _; rw [h1, hSl]
+
+/-- **deleting what was just inserted restores the original**: the flat delete of the landing positions from the
+result of the (pairwise) flat insert is the flattened original -/
+theorem delete_insert_id (a : Arr α) (idxs : List Nat) (values : Arr α)
+    (hv : values.ndim = 1) (ha : 1 ≤ a.ndim) (hk : 0 < idxs.length) (hlen : values.elems.length = idxs.length)
+    (hb : ∀ i ∈ idxs, i ≤ a.elems.length) :
+    (a.insertFlat idxs values >>= fun r =>
+      r.deleteFlat ((sortByIdx (idxs.zip values.elems)).zipIdx.map (fun q => q.1.1 + q.2))) = .ok (Arr.flat a.elems) := by
+  have hok := Arr.insertFlat_ok a idxs values hv ha hk (by omega) (.inl hlen.symm) hb
+  rw [hlen, Nat.max_self, bc1_same, ← hlen, bc1_same] at hok
+  have hS : ∀ p ∈ sortByIdx (idxs.zip values.elems), p.1 ≤ a.elems.length := fun p hp =>
+    hb _ (List.of_mem_zip ((sortByIdx_perm _).mem_iff.1 hp)).1
+  rw [hok, Res.bind_ok]
+  exact (insertAllAt_spec a.elems _ (sortByIdx_sorted (idxs.zip values.elems)) hS).2.2.2
+
+/-- **several values at one position** (the index broadcasts): they go in as one block, in request order, in front of
+the old element at that position -/
+theorem insertFlat_one_index (a : Arr α) (i : Nat) (values : Arr α)
+    (hv : values.ndim = 1) (ha : 1 ≤ a.ndim) (hm : 0 < values.elems.length) (hb : i ≤ a.elems.length) :
+    a.insertFlat [i] values = .ok (Arr.flat (a.elems.take i ++ values.elems ++ a.elems.drop i)) := by
+  have hok := Arr.insertFlat_ok a [i] values hv ha (by simp) hm (.inr (.inl rfl)) (by simpa using hb)
+  have hmax : max [i].length values.elems.length = values.elems.length := by simp; omega
+  rw [hmax, bc1_same, bc1_single, zip_replicate_left, sortByIdx_of_sorted, insertAllAt_same_index _ _ hb] at hok
+  · exact hok
+  · rw [List.pairwise_map]; exact List.pairwise_of_forall_mem_list (fun _ _ _ _ => Nat.le_refl _)
+
+/-- **one value at several positions** (the value broadcasts): exactly the pairwise statement with the value repeated -/
+theorem insertFlat_one_value (a : Arr α) (idxs : List Nat) (v : α) (values : Arr α) (hve : values.elems = [v])
+    (hv : values.ndim = 1) (ha : 1 ≤ a.ndim) (hk : 0 < idxs.length) (hb : ∀ i ∈ idxs, i ≤ a.elems.length) :
+    a.insertFlat idxs values = a.insertFlat idxs (Arr.flat (List.replicate idxs.length v)) := by
+  have h1 := Arr.insertFlat_ok a idxs values hv ha hk (by simp [hve]) (.inr (.inr (by simp [hve]))) hb
+  have h2 := Arr.insertFlat_ok a idxs (Arr.flat (List.replicate idxs.length v)) rfl ha hk
+    (by simpa [Arr.flat] using hk) (.inl (by simp [Arr.flat])) hb
+  have hmax : max idxs.length [v].length = idxs.length := by simp; omega
+  rw [h1, h2, hve, hmax, bc1_same, bc1_single]
+  simp only [Arr.flat, List.length_replicate, Nat.max_self, bc1_same]
+  rw [show bc1 (List.replicate idxs.length v) idxs.length = List.replicate idxs.length v from by
+    simpa using bc1_same (List.replicate idxs.length v)]
+
+/-- **rejections of flat insert** (exhaustive together with the three success cases above for a 1-D value array, so
+the call never panics there): an index beyond `len` gives `Err(OutOfBounds)`; otherwise a value array that is not 1-D
+(or a rank-0 receiver) gives `Err(UnsupportedDimension)`; otherwise index and value counts that are neither equal nor
+one of them 1 (or zero) give `Err(BroadcastShapeMismatch)`. -/
+theorem insertFlat_rejects (a : Arr α) (idxs : List Nat) (values : Arr α) :
+    ((∃ i ∈ idxs, a.elems.length < i) → a.insertFlat idxs values = .err .OutOfBounds) ∧
+    ((∀ i ∈ idxs, i ≤ a.elems.length) → (values.ndim ≠ 1 ∨ a.ndim = 0) →
+      a.insertFlat idxs values = .err .UnsupportedDimension) ∧
+    ((∀ i ∈ idxs, i ≤ a.elems.length) → values.ndim = 1 → 1 ≤ a.ndim →
+      (idxs.length = 0 ∨ values.elems.length = 0 ∨
+        (idxs.length ≠ values.elems.length ∧ idxs.length ≠ 1 ∧ values.elems.length ≠ 1)) →
+      a.insertFlat idxs values = .err .BroadcastShapeMismatch) :=
+  ⟨Arr.insertFlat_oob a idxs values, Arr.insertFlat_dim a idxs values, Arr.insertFlat_mismatch a idxs values⟩
+
+/-! ## 4. flat append -/
+
+/-- **append puts the new elements exactly at the end**: the result is the flat array of the old elements followed
+by the new ones; the first `len` positions are unchanged and position `len + j` holds the `j`-th new element -/
+theorem appendFlat_spec (a v : Arr α) :
+    (a.appendFlat v).elems = a.elems ++ v.elems ∧ (a.appendFlat v).shape = [a.elems.length + v.elems.length] ∧
+    (a.appendFlat v).WF ∧
+    (∀ i, i < a.elems.length → (a.appendFlat v).elems[i]? = a.elems[i]?) ∧
+    (∀ j, (a.appendFlat v).elems[a.elems.length + j]? = v.elems[j]?) := by
+  refine ⟨rfl, by simp [Arr.appendFlat, Arr.flat], by simp [Arr.appendFlat, Arr.flat, Arr.WF], ?_, ?_⟩
+  · intro i hi; show (a.elems ++ v.elems)[i]? = _; rw [List.getElem?_append_left hi]
+  · intro j; show (a.elems ++ v.elems)[_]? = _
+    rw [List.getElem?_append_right (by omega)]; congr 1; omega
+
+/-- deleting the appended tail restores the (flattened) original -/
+theorem delete_append_id (a v : Arr α) :
+    (a.appendFlat v).deleteFlat ((List.range v.elems.length).map (a.elems.length + ·)) = .ok (Arr.flat a.elems) := by
+  rw [Arr.deleteFlat_ok]
+  · congr 2
+    show keepPositions (a.elems ++ v.elems) _ = a.elems
+    unfold keepPositions
+    rw [List.zipIdx_append, List.filter_append, List.map_append]
+    have h1 : (a.elems.zipIdx.filter (fun p => decide (p.2 ∉ (List.range v.elems.length).map (a.elems.length + ·)))) = a.elems.zipIdx := by
+      rw [List.filter_eq_self]
+      intro p hp
+      have := (List.mem_zipIdx hp).2.1
+      simp at this ⊢; intro x _; omega
+    have h2 : ((v.elems.zipIdx (0 + a.elems.length)).filter (fun p => decide (p.2 ∉ (List.range v.elems.length).map (a.elems.length + ·)))) = [] := by
+      rw [List.filter_eq_nil_iff]
+      intro p hp
+      have := List.mem_zipIdx hp
+      simp at this ⊢
+      exact ⟨p.2 - a.elems.length, by omega, by omega⟩
+    rw [h1, h2]; simp
+  · intro i hi
+    obtain ⟨j, hj, rfl⟩ := List.mem_map.1 hi
+    have : j < v.elems.length := by simpa using hj
+    show _ < (a.elems ++ v.elems).length
+    rw [List.length_append]; omega
+
+/-! ## 6. trim_zeros -/
+
+/-- **trimming removes leading and trailing zeros only**: a rank-1 array is answered with a flat array `r` such that
+the input is `p ++ r ++ s` with `p` and `s` all zeros and `r` neither starting nor ending with a zero (so `p`, `s` are
+the LONGEST all-zero prefix and suffix); any other rank is refused. -/
+theorem trimZeros_spec [DecidableEq α] (a : Arr α) (zero : α) :
+    (a.ndim = 1 → ∃ r p s, a.trimZeros zero = .ok r ∧ r.shape = [r.elems.length] ∧
+      a.elems = p ++ r.elems ++ s ∧ (∀ x ∈ p, x = zero) ∧ (∀ x ∈ s, x = zero) ∧
+      r.elems.head? ≠ some zero ∧ r.elems.getLast? ≠ some zero) ∧
+    (a.ndim ≠ 1 → a.trimZeros zero = .err .UnsupportedDimension) := by
+  constructor
+  · intro h
+    obtain ⟨p, s, h1, h2, h3, h4, h5⟩ := trimList_decomp zero a.elems
+    refine ⟨Arr.flat (trimList zero a.elems), p, s, ?_, rfl, h1, h2, h3, h4, h5⟩
+    unfold Arr.trimZeros; rw [if_neg (by simp [h])]; rfl
+  · intro h; unfold Arr.trimZeros; rw [if_pos h]
+
+/-- **nothing else is removed**: the decomposition of `trimZeros_spec` determines the result — whenever the input is
+`zeros ++ r ++ zeros` with `r` not starting or ending with zero, the answer is exactly `r` -/
+theorem trimZeros_unique [DecidableEq α] (a : Arr α) (zero : α) (h : a.ndim = 1) (p r s : List α)
+    (hl : a.elems = p ++ r ++ s) (hp : ∀ x ∈ p, x = zero) (hs : ∀ x ∈ s, x = zero)
+    (hh : r.head? ≠ some zero) (ht : r.getLast? ≠ some zero) : a.trimZeros zero = .ok (Arr.flat r) := by
+  unfold Arr.trimZeros; rw [if_neg (by simp [h])]
+  have := trimList_of_decomp zero a.elems p r s hl hp hs hh ht
+  unfold trimList at this
+  rw [this]
+
 end ArrModel.C13
